@@ -115,7 +115,12 @@ fn mk_info_req(c: &Value) -> Box<h::InformationRequestHeaderTag> {
 }
 
 /// runs a constructor with allocator tracking; describes the result (and its clone) and drops it
-fn boxed<T: ?Sized + MaybeDynSized<Metadata = usize>>(c: &Value, f: impl FnOnce() -> Box<T>, id_const: u64) -> Value {
+fn boxed<T: ?Sized + MaybeDynSized<Metadata = usize> + PartialEq>(c: &Value, f: impl FnOnce() -> Box<T>, id_const: u64) -> Value {
+    boxed_opt(c, f, id_const, Some(|a: &T, b: &T| a == b))
+}
+
+/// `eq`: the type's own PartialEq, where it has one
+fn boxed_opt<T: ?Sized + MaybeDynSized<Metadata = usize>>(c: &Value, f: impl FnOnce() -> Box<T>, id_const: u64, eq: Option<fn(&T, &T) -> bool>) -> Value {
     let mut ids = HashMap::new();
     alloc_track::mark();
     let t = f();
@@ -130,6 +135,10 @@ fn boxed<T: ?Sized + MaybeDynSized<Metadata = usize>>(c: &Value, f: impl FnOnce(
         let cl = clone_dyn(&*t);
         let ev2 = alloc_track::unmark();
         let mut cm = describe(&*cl);
+        // "an equal tag" also in the sense of the type's own PartialEq
+        if let Some(eq) = eq {
+            cm.insert("eq".into(), json!(if eq(&*cl, &*t) { 1 } else { 0 }));
+        }
         let n = ids.len() as u64 + 1;
         let cid = *ids.entry((&*cl as *const T).cast::<u8>() as usize).or_insert(n);
         cm.insert("obj".into(), json!(cid));
@@ -278,7 +287,7 @@ fn construct(c: &Value) -> Value {
         }
         "elf" => boxed(c, || mk_elf(c), id_of::<ElfSectionsTag>()),
         "smbios" => boxed(c, || mk_smbios(c), id_of::<SmbiosTag>()),
-        "network" => boxed(c, || mk_network(c), id_of::<NetworkTag>()),
+        "network" => boxed_opt(c, || mk_network(c), id_of::<NetworkTag>(), None),
         "efi_mmap" => boxed(c, || mk_efi_mmap(c), id_of::<EFIMemoryMapTag>()),
         "custom" => boxed(c, || mk_custom(c), u(c, "typ")),
         "info_req" => boxed(c, || mk_info_req(c), hid_of::<h::InformationRequestHeaderTag>()),
